@@ -350,6 +350,8 @@ func (mab *memoryAddrBook) ConsumePeerRecord(recordEnvelope *record.Envelope, tt
 	mab.mu.Lock()
 	defer mab.mu.Unlock()
 
+	mab.purgeExpiredUnlocked(rec.PeerID)
+
 	// ensure seq is greater than or equal to the last received
 	lastState, found := mab.signedPeerRecords[rec.PeerID]
 	if found && lastState.Seq > rec.Seq {
@@ -418,6 +420,21 @@ func (mab *memoryAddrBook) maybeDeleteSignedPeerRecordUnlocked(p peer.ID) {
 	}
 }
 
+// purgeExpiredUnlocked drops the addrs of p that have expired but were not
+// garbage collected yet. Writers call it first so that they never build on
+// entries Addrs no longer returns: such an entry would otherwise pass on its
+// old TTL class, come back to life on UpdateAddrs, or keep a stale signed
+// peer record (and its Seq) around.
+func (mab *memoryAddrBook) purgeExpiredUnlocked(p peer.ID) {
+	now := mab.clock.Now()
+	for _, a := range mab.addrs.Addrs[p] {
+		if a.ExpiredBy(now) {
+			mab.addrs.Delete(a)
+		}
+	}
+	mab.maybeDeleteSignedPeerRecordUnlocked(p)
+}
+
 // numUnconnectedAddrsForPeerUnlocked returns how many of p's stored addrs
 // are not held by a live connection.
 func (mab *memoryAddrBook) numUnconnectedAddrsForPeerUnlocked(p peer.ID) int {
@@ -459,6 +476,7 @@ func (mab *memoryAddrBook) addAddrs(p peer.ID, addrs []ma.Multiaddr, ttl time.Du
 	mab.mu.Lock()
 	defer mab.mu.Unlock()
 
+	mab.purgeExpiredUnlocked(p)
 	mab.addAddrsUnlocked(p, addrs, ttl)
 }
 
@@ -533,6 +551,8 @@ func (mab *memoryAddrBook) SetAddrs(p peer.ID, addrs []ma.Multiaddr, ttl time.Du
 
 	defer mab.maybeDeleteSignedPeerRecordUnlocked(p)
 
+	mab.purgeExpiredUnlocked(p)
+
 	exp := mab.clock.Now().Add(ttl)
 	for _, addr := range addrs {
 		addr, addrPid := peer.SplitAddr(addr)
@@ -586,6 +606,8 @@ func (mab *memoryAddrBook) UpdateAddrs(p peer.ID, oldTTL time.Duration, newTTL t
 	defer mab.mu.Unlock()
 
 	defer mab.maybeDeleteSignedPeerRecordUnlocked(p)
+
+	mab.purgeExpiredUnlocked(p)
 
 	exp := mab.clock.Now().Add(newTTL)
 	for _, a := range mab.addrs.Addrs[p] {
